@@ -127,7 +127,7 @@ static int build(REF_GRID *grid_ptr, int with_geom) {
   for (i = 0; i < nn; i++) {
     REF_INT node;
     const int b = w + PER_NODE * i;
-    if (REF_SUCCESS != ref_node_add(ref_node, i, &node) || node != i) exit(5);
+    if (REF_SUCCESS != ref_node_add(ref_node, (REF_GLOB)(3 * i + 5), &node) || node != i) exit(5);
     for (c = 0; c < 3; c++) ref_node_xyz(ref_node, c, node) = h_f(h_w[b + c]);
     FLAGS[i] = (int)h_i(h_w[b + 3]);
     for (c = 0; c < 12; c++) ref_node_real(ref_node, 3 + c, node) = h_f(h_w[b + 4 + c]);
